@@ -262,6 +262,12 @@ def immutable_expr(e):
     return False
 
 
+def is_iterator_expr(e):
+    if isinstance(e, ast.GeneratorExp):
+        return True
+    return isinstance(e, ast.Call) and isinstance(e.func, ast.Name) and e.func.id in ("zip", "map", "filter", "iter", "enumerate", "reversed", "open")
+
+
 def value_kind(e):
     """immutable | logger | regex | mutable"""
     if e is None:
@@ -1105,10 +1111,15 @@ def collect_globals():
         written = {}  # name -> set(writers)
         mutable_names = {n for n, vals in m.level.items() if any(value_kind(v) == "mutable" for v in vals)}
         fnames = set(m.funcs) if m.name != "neuroml.nml.nml" else set()
+        iterator_names = {n for n, vals in m.level.items() if any(is_iterator_expr(v) for v in vals)}
         for fn in m.all_fns:
             loc, globs, gstores = scope_info(fn)
             for name in gstores:
                 written.setdefault(name, set()).add(fn.qual)
+            # a module-level iterator (zip/map/filter/iter/generator/open): any use in a function consumes it
+            for n in fn.scope_nodes():
+                if isinstance(n, ast.Name) and n.id in iterator_names and isinstance(n.ctx, ast.Load) and not is_local(fn, n.id):
+                    written.setdefault(n.id, set()).add(fn.qual + " (consumes the iterator)")
             # in-place mutation of module-level mutables / function objects
             used = set()
             for n in fn.scope_nodes():
@@ -1174,6 +1185,117 @@ def collect_globals():
                     if (parts[0], parts[-1]) in EXTERNAL_STATE or d.startswith("sys.path.") or d == "logger.setLevel":
                         ext.append({"module": m.name, "call": d, "line": n.lineno})
     return out, ext
+
+
+# ------------------------------------------------------------------ 4. mutations of process-global state
+PROC_CALLS = {
+    "os.chdir": "cwd", "os.fchdir": "cwd",
+    "os.putenv": "environ", "os.unsetenv": "environ", "os.environ.update": "environ", "os.environ.pop": "environ",
+    "os.environ.setdefault": "environ", "os.environ.clear": "environ", "os.environ.popitem": "environ",
+    "sys.path.append": "sys.path", "sys.path.insert": "sys.path", "sys.path.extend": "sys.path", "sys.path.remove": "sys.path",
+    "sys.path.pop": "sys.path", "sys.path.clear": "sys.path", "sys.path.sort": "sys.path", "sys.path.reverse": "sys.path",
+    "warnings.simplefilter": "warnings", "warnings.filterwarnings": "warnings", "warnings.resetwarnings": "warnings",
+    "logging.basicConfig": "logging", "logging.disable": "logging", "logging.captureWarnings": "logging",
+    "sys.setrecursionlimit": "recursionlimit", "locale.setlocale": "locale",
+}
+PROC_TARGETS = {"os.environ": "environ", "sys.path": "sys.path", "sys.stdout": "stdio", "sys.stderr": "stdio", "sys.stdin": "stdio",
+                "warnings.filters": "warnings"}
+
+
+def proc_kind_of(node):
+    """(kind, text) if the node mutates process-global state, else None"""
+    if isinstance(node, ast.Call):
+        d = dotted_name(node.func)
+        if d:
+            if d in PROC_CALLS:
+                return PROC_CALLS[d], d
+            if d.endswith(".setLevel") or d.endswith(".addHandler") or d.endswith(".removeHandler"):
+                return "logging", d
+        return None
+    tgts = []
+    if isinstance(node, ast.Assign):
+        tgts = node.targets
+    elif isinstance(node, (ast.AugAssign, ast.AnnAssign)):
+        tgts = [node.target]
+    elif isinstance(node, ast.Delete):
+        tgts = node.targets
+    for t in tgts:
+        base = t.value if isinstance(t, ast.Subscript) else t
+        d = dotted_name(base) if isinstance(base, (ast.Attribute, ast.Name)) else None
+        if d in PROC_TARGETS:
+            return PROC_TARGETS[d], ast.unparse(t)[:40] + " = ..."
+    return None
+
+
+def collect_process_state():
+    rows = []
+    for m in W.mods.values():
+        parents = {}
+        for p in ast.walk(m.tree):
+            for c in ast.iter_child_nodes(p):
+                parents[c] = p
+        for n in ast.walk(m.tree):
+            pk = proc_kind_of(n)
+            if pk is None:
+                continue
+            kind, text = pk
+            # enclosing statement, function, guards
+            chain = []
+            x = n
+            while x in parents:
+                x = parents[x]
+                chain.append(x)
+            fn = next((c for c in chain if isinstance(c, (ast.FunctionDef, ast.AsyncFunctionDef, ast.Lambda))), None)
+            stmt = n if isinstance(n, ast.stmt) else next(c for c in chain if isinstance(c, ast.stmt))
+            main_guard = any(isinstance(c, ast.If) and "__name__" in ast.unparse(c.test) for c in chain)
+            scope = "function" if fn is not None else ("script-only" if main_guard else "import-time")
+            qual = "<module>"
+            if fn is not None:
+                for g in m.all_fns:
+                    if g.node is fn:
+                        qual = g.qual
+            restored, how = False, "not restored"
+            if fn is not None:
+                # (a) a context manager that saves and restores the state
+                for c in chain:
+                    if isinstance(c, (ast.With, ast.AsyncWith)):
+                        ctx = " ".join(ast.unparse(i.context_expr) for i in c.items)
+                        if (kind == "warnings" and "catch_warnings" in ctx) or (kind == "stdio" and "redirect_std" in ctx) \
+                                or (kind == "cwd" and "chdir" in ctx):
+                            restored, how = True, "inside `with %s`" % ctx[:40]
+                # (b) the statement is itself the restore in a finally block
+                for c in chain:
+                    if isinstance(c, ast.Try):
+                        if any(stmt is f or stmt in ast.walk(f) for f in c.finalbody):
+                            restored, how = True, "is the restore in a finally block"
+                # (c) immediately followed by / inside the body of a try whose finally restores the same kind
+                if not restored:
+                    par = parents.get(stmt)
+                    tries = []
+                    for fld in ("body", "orelse", "finalbody"):
+                        body = getattr(par, fld, None)
+                        if isinstance(body, list) and stmt in body:
+                            i = body.index(stmt)
+                            if i + 1 < len(body) and isinstance(body[i + 1], ast.Try):
+                                tries.append(body[i + 1])
+                    if isinstance(par, ast.Try) and stmt in par.body:
+                        tries.append(par)
+                    for t in tries:
+                        for f in t.finalbody:
+                            for k in ast.walk(f):
+                                pk2 = proc_kind_of(k)
+                                if pk2 and pk2[0] == kind:
+                                    ok = True
+                                    if kind == "cwd":   # os.chdir(saved) with saved = os.getcwd() taken in this function
+                                        arg = ast.unparse(k.args[0]) if isinstance(k, ast.Call) and k.args else ""
+                                        ok = any(isinstance(a, ast.Assign) and ast.unparse(a.targets[0]) == arg
+                                                 and "getcwd" in ast.unparse(a.value) for a in ast.walk(fn))
+                                    if ok:
+                                        restored, how = True, "restored in the finally of the try at line %d" % t.lineno
+            rows.append({"module": m.name, "func": qual, "line": getattr(n, "lineno", 0), "kind": kind, "call": text,
+                         "scope": scope, "restored": restored, "how": how})
+    rows.sort(key=lambda r: (r["module"], r["line"]))
+    return rows
 
 
 # ------------------------------------------------------------------------------- entry defaults
@@ -1406,6 +1528,7 @@ def main():
     fields = collect_fields()
     globs, ext = collect_globals()
     classmeta = collect_classmeta()
+    process = collect_process_state()
     entry = collect_entry_defaults(defaults) if "neuroml.loaders" in W.mods else {}
     bshape = builder_shape()
     seen = set()
@@ -1415,7 +1538,7 @@ def main():
         if k not in seen:
             seen.add(k)
             uniq.append(u)
-    doc = {"defaults": defaults, "fields": fields, "globals": globs, "classmeta": classmeta, "external_state_calls": ext,
+    doc = {"defaults": defaults, "fields": fields, "globals": globs, "classmeta": classmeta, "process_state": process, "external_state_calls": ext,
            "entry_defaults": entry, "builder_shape": bshape, "untranslatable": uniq,
            "modules": sorted(W.mods), "functions_scanned": sum(len(m.all_fns) for m in W.mods.values())}
     print(json.dumps(doc))
